@@ -52,9 +52,14 @@ ASSUMPTIONS = [
     "varargs/kwargs names (they are a Variable/str or None)",
     "Signature.kwargs_name / varargs_name are set exactly when the pytd "
     "signature has starstarargs / starargs (Signature.from_pytd)",
-    "a loop-target flag (e.g. `kwonly`) that refines a call-site exemption is "
-    "quantified existentially: the literal is required for some value of the "
-    "flag (the positional-parameter case)",
+    "the interpreter binder's per-parameter flag bound by `for key, flag in "
+    "itertools.chain(get_nondefault_params(), ((k, True) for k in "
+    "kwonly_params))` means 'keyword-only'; guard literals are computed for "
+    "the positional-parameter case (flag False), where both binders must "
+    "agree; the extra keyword-only refinement of the interpreter binder is "
+    "recorded, not compared",
+    "the negation of an earlier check whose only effect is to raise another "
+    "binder error orders the errors and is not counted as a guard",
     "only raises written directly in the three binder functions are compared; "
     "helpers they call are not followed",
 ]
@@ -343,6 +348,8 @@ class _Canon:
   # formula construction ------------------------------------------------------
   def atom(self, expr, stmt):
     """-> (name, vocabulary?)"""
+    if isinstance(expr, ast.Name) and expr.id in getattr(self, "_flags", {}):
+      return ("atom", self._flags[expr.id])
     sa = self.sig_attr(expr, stmt)
     if sa:
       return ("atom", sa)
@@ -405,23 +412,82 @@ class _Canon:
       return [("atom", "name in keywords")]
     return []
 
+  def kwonly_flag(self, loop):
+    """`for key, flag in itertools.chain(.., ((k, True) for k in
+    <sig>.kwonly_params))`: the name of the is-keyword-only flag, or None."""
+    t = loop.target
+    if not (isinstance(t, ast.Tuple) and len(t.elts) == 2
+            and all(isinstance(e, ast.Name) for e in t.elts)):
+      return None
+    it = loop.iter
+    if not (isinstance(it, ast.Call)
+            and (dotted(it.func) or "").split(".")[-1] == "chain"):
+      return None
+    for a in it.args:
+      if isinstance(a, (ast.GeneratorExp, ast.ListComp)) and \
+          len(a.generators) == 1 and \
+          isinstance(a.elt, ast.Tuple) and len(a.elt.elts) == 2 and \
+          isinstance(a.elt.elts[1], ast.Constant) and \
+          a.elt.elts[1].value is True and \
+          self.set_class(a.generators[0].iter, loop) == "kwonly-params":
+        return t.elts[1].id
+    return None
+
   def path_condition(self, stmt):
+    """Conjunction of the tests controlling `stmt`.  Negations contributed by
+    an *earlier* check that only raises are left out: they order the errors,
+    they do not guard this one."""
     mod = self.b.mod
-    conj = []
-    for test, pol in flow.guards(mod.parent, stmt, stop=self.fn):
-      holder = mod.enclosing_stmt(test)
-      f = self.formula(test, holder)
-      conj.append(f if pol else ("not", f))
-    refinements = set()
+    flags = {}
+    loops = []
     node = stmt
     while node is not None and node is not self.fn:
       node = mod.parent.get(node)
       if isinstance(node, ast.For):
-        conj.extend(self.loop_domain(node))
-        for n in ast.walk(node.target):
-          if isinstance(n, ast.Name):
-            refinements.add("?" + n.id)
-    return ("and", conj), refinements
+        loops.append(node)
+        fl = self.kwonly_flag(node)
+        if fl:
+          flags[fl] = "param.kwonly"
+    self._flags = flags
+    conj = []
+    for test, pol in flow.guards(mod.parent, stmt, stop=self.fn):
+      owner = mod.parent.get(test)
+      if isinstance(owner, ast.If) and owner.test is test and \
+          not _contains(owner, stmt):
+        exit_block = owner.orelse if pol else owner.body
+        if _only_raises(exit_block):
+          continue
+      holder = mod.enclosing_stmt(test)
+      f = self.formula(test, holder)
+      conj.append(f if pol else ("not", f))
+    loop_names = set()
+    for lp in loops:
+      conj.extend(self.loop_domain(lp))
+      for n in ast.walk(lp.target):
+        if isinstance(n, ast.Name):
+          loop_names.add(n.id)
+    f = ("and", conj)
+    for a in _atoms(f, set()):
+      if a.startswith("?") and a[1:] in loop_names:
+        raise AnalysisError(
+            f"{self.q}: the per-parameter flag `{a[1:]}` in a binder guard "
+            "could not be resolved (is-keyword-only idiom not recognised)")
+    return f, {"param.kwonly": False} if "param.kwonly" in _atoms(f, set()) else {}
+
+
+def _contains(root, node):
+  return any(n is node for n in ast.walk(root))
+
+
+def _only_raises(block):
+  if not block:
+    return False
+  last = block[-1]
+  if isinstance(last, ast.Raise):
+    return True
+  if isinstance(last, ast.If):
+    return _only_raises(last.body) and _only_raises(last.orelse)
+  return False
 
 
 def _atoms(f, out):
@@ -448,35 +514,29 @@ def _eval(f, env):
   return any(_eval(g, env) for g in f[1])
 
 
-def _necessary_literals(f, refinements):
-  """Vocabulary literals implied by f (for some value of refinement atoms)."""
+def _necessary_literals(f, fixed):
+  """Vocabulary literals implied by f when the atoms in `fixed` have the
+  given values (the positional-parameter case)."""
   atoms = sorted(_atoms(f, set()))
   if len(atoms) > 14:
     raise AnalysisError(f"path condition has {len(atoms)} atoms: too many")
-  ref = [a for a in atoms if a in refinements]
-  rest = [a for a in atoms if a not in refinements]
+  rest = [a for a in atoms if a not in fixed]
   vocab = [a for a in rest if not a.startswith("?")]
-  lits = set()
-  sat_any = False
-  for rv in itertools.product([False, True], repeat=len(ref)):
-    renv = dict(zip(ref, rv))
-    models = []
-    for vals in itertools.product([False, True], repeat=len(rest)):
-      env = dict(zip(rest, vals), **renv)
-      if _eval(f, env):
-        models.append(env)
-    if not models:
-      continue
-    sat_any = True
-    for a in vocab:
-      if all(m[a] for m in models):
-        lits.add(a)
-      elif not any(m[a] for m in models):
-        lits.add("not " + a)
-  if not sat_any:
+  models = []
+  for vals in itertools.product([False, True], repeat=len(rest)):
+    env = dict(zip(rest, vals), **fixed)
+    if _eval(f, env):
+      models.append(env)
+  if not models:
     raise AnalysisError("path condition of a raise is unsatisfiable")
+  lits = set()
+  for a in vocab:
+    if all(m[a] for m in models):
+      lits.add(a)
+    elif not any(m[a] for m in models):
+      lits.add("not " + a)
   opaque = [a[1:] for a in rest if a.startswith("?")]
-  return lits, opaque, [r[1:] for r in ref]
+  return lits, opaque, [f"{k}={v}" for k, v in sorted(fixed.items())]
 
 
 # -- raise facts -------------------------------------------------------------------
@@ -520,10 +580,10 @@ def _raise_facts(binder):
               f"{q}: the keyword set `{src(exc.args[3])}` reported by "
               "WrongKeywordArgs could not be classified (extra / posonly)")
         key = f"WrongKeywordArgs[{tag}]"
-      pc, refinements = canon.path_condition(r)
-      lits, opaque, ref = _necessary_literals(pc, refinements)
+      pc, fixed = canon.path_condition(r)
+      lits, opaque, ref = _necessary_literals(pc, fixed)
       out.setdefault(key, []).append({
-          "literals": sorted(lits), "opaque": opaque, "refined_by": ref,
+          "literals": sorted(lits), "opaque": opaque, "evaluated_for": ref,
           "line": r.lineno, "function": q})
   return out
 
@@ -576,12 +636,14 @@ def _kw_store_facts(binder):
                     v.key.id == g.target.elts[0].id):
               raise AnalysisError(f"{q}: `{src(v)}` re-keys the keywords")
             f = ("and", [canon.formula(c, vstmt) for c in g.ifs])
-            lits, _, _ = _necessary_literals(f, set()) if g.ifs else (set(), 0, 0)
+            lits, _, _ = _necessary_literals(f, {}) if g.ifs else (set(), 0, 0)
             out.append((q, n.lineno, src(n), "not name in posonly" in lits))
-          elif isc is None and "namedargs" in src(v) + src(it):
-            raise AnalysisError(f"{q}: `{src(n)}` not understood")
-        elif sc is None and ("namedargs" in src(v) or "kws" in src(e)):
-          raise AnalysisError(f"{q}: `{src(n)}` not understood")
+          elif isc != "bound":
+            raise AnalysisError(
+                f"{q}: source of `{src(n)}` could not be classified")
+        else:
+          raise AnalysisError(
+              f"{q}: source of `{src(n)}` could not be classified")
       # MAP[k] = v inside `for k, v in <keywords>.items()`
       if isinstance(n, ast.Assign):
         for t in n.targets:
@@ -1026,6 +1088,16 @@ VARIANTS = [
     {"name": "twin-pytd-nested-if-merged", "rule": "R13.1", "file": PF, "expect": "silent",
      "old": "    if posonly_kwargs and not self.signature.kwargs_name:\n      raise error_types.WrongKeywordArgs(",
      "new": "    if not self.signature.kwargs_name and posonly_kwargs:\n      raise error_types.WrongKeywordArgs("},
+    {"name": "interp-starargs-exemption-for-kwonly-instead-of-positional", "rule": "R13.1", "file": FB, "expect": "fire",
+     "old": "(args.starargs and not kwonly)", "new": "(args.starargs and kwonly)"},
+    {"name": "twin-pytd-independent-checks-swapped", "rule": "R13.1", "expect": "silent",
+     "edits": [(PF, "    if extra_kwargs and not self.pytd_sig.starstarargs:\n      if function.has_visible_namedarg(node, args, extra_kwargs):\n        raise error_types.WrongKeywordArgs(\n            self.signature, args, self.ctx, extra_kwargs\n        )\n    posonly_kwargs = kws & posonly_names\n",
+                "    posonly_kwargs = kws & posonly_names\n"),
+               (PF, "          self.signature, args, self.ctx, posonly_kwargs\n      )\n",
+                "          self.signature, args, self.ctx, posonly_kwargs\n      )\n    if extra_kwargs and not self.pytd_sig.starstarargs:\n      if function.has_visible_namedarg(node, args, extra_kwargs):\n        raise error_types.WrongKeywordArgs(\n            self.signature, args, self.ctx, extra_kwargs\n        )\n")]},
+    {"name": "twin-interp-kwonly-chain-listcomp", "rule": "R13.1", "file": FB, "expect": "silent",
+     "old": "self.get_nondefault_params(), ((key, True) for key in sig.kwonly_params)",
+     "new": "self.get_nondefault_params(), [(k, True) for k in sig.kwonly_params]"},
     # R13.2
     {"name": "duplicate-keyword-arm-removed", "rule": "R13.2", "file": ERRORS, "expect": "fire",
      "old": "    elif isinstance(error, error_types.DuplicateKeyword):\n      self.duplicate_keyword(stack, error.name, error.bad_call, error.duplicate)\n",
